@@ -288,6 +288,9 @@ def ite(c, a, b):
         if a.pytype == 'ndarray' and b.pytype == 'ndarray' and (a.writable or b.writable) and a.cells is not b.cells:
             # distinct mutable buffers: keep their identities apart so that later writes go to the right one
             return PyChoice.merge(c, a, b)
+        if not a.writable and not b.writable and a.plain_cells() is not None and b.plain_cells() is not None \
+                and len(a.plain_cells()) != len(b.plain_cells()):
+            return PyChoice.merge(c, a, b)        # immutable sequences of different length
         return SymSeq.merge(c, a, b)
     if a is None and b is None:
         return None
@@ -363,7 +366,7 @@ class PyChoice:
 def _choiceable(x):
     if isinstance(x, PyChoice) or x is None or isinstance(x, (str, bytes, tuple)):
         return True
-    if isinstance(x, SymSeq) and x.writable and x.pytype == 'ndarray':
+    if isinstance(x, SymSeq) and ((x.writable and x.pytype == 'ndarray') or not x.writable):
         return True
     return getattr(x, 'choiceable', False)
 
